@@ -10,7 +10,8 @@
                                     sortedJournalPaths, pathToURI
     internal/server/hover.go        positionInRange, getPayeeOrDescription, estimatePayeeRange
     internal/server/position.go     columnMapper (lineColumn, toProtocol, runePosition), fileMappers
-    internal/server/server.go       resolvedWithPrimaryPath (getWorkspaceResolved + GetResolved)
+    internal/server/server.go       resolvedWithPrimaryPath, workspaceResolvedFor, GetResolved
+    internal/workspace/workspace.go Workspace.Contains
     internal/include/types.go       ResolvedJournal (Primary, Files, FileOrder)
     internal/lsputil/mapper.go      RuneOffsetToUTF16, UTF16OffsetToRuneOffset (on the lines of a
                                     text, valid UTF-8: `List Char`); utf8.RuneCountInString
@@ -314,6 +315,28 @@ structure Request where
   curLines : Lines := []
   /-- the `fileMappers` returned by `resolvedWithPrimaryPath` -/
   texts : Texts := noTexts
+
+/-- `Workspace.Contains`: the path is the root journal or a key of `resolved.Files`. -/
+def wsContains (r : Resolved) (root : Path) (path : Path) : Bool :=
+  path != "" && (path == root || r.files.any (·.1 == path))
+
+/-- `Server.resolvedWithPrimaryPath` (with `workspaceResolvedFor`, as repaired by
+    fix-orphan-journal-own-tree.diff): the workspace's resolved journal, labelled with the root
+    journal's path, when the document is the root journal or a file of its include tree;
+    otherwise (a journal outside that tree, no workspace, a workspace without a root journal:
+    `ws = none`) the journal resolved for the document itself, labelled with its own path. -/
+def resolvedWithPrimaryPath (ws : Option (Resolved × Path)) (own : Option Resolved) (docPath : Path) :
+    Option Resolved × Path :=
+  match ws with
+  | some (r, root) => if wsContains r root docPath then (some r, root) else (own, docPath)
+  | none => (own, docPath)
+
+/-- the same before that repair: the workspace's journal whenever there is one. -/
+def pinnedResolvedWithPrimaryPath (ws : Option (Resolved × Path)) (own : Option Resolved) (docPath : Path) :
+    Option Resolved × Path :=
+  match ws with
+  | some (r, root) => (some r, root)
+  | none => (own, docPath)
 
 /-- `Server.References`. -/
 def references (q : Request) (incl : Bool) : List Loc :=
